@@ -282,6 +282,9 @@ func (x *Exec) finishObls() []*Obl {
 			o.PC = x.withGlobals(o.PC)
 		}
 		canonBigApps(o)
+		if !o.Cover && alphaAssumed(o) {
+			o.Status, o.Solver = "unsat", "syntactic (the goal is an assumption)"
+		}
 		o.Defs = defs.String()
 		o.DefNames = x.defOrder
 		for _, n := range x.defOrder {
@@ -757,3 +760,28 @@ func (x *Exec) assumeTheories(st *State, theories []string) {
 
 // specConstsNow: values of the `specialize NAME = ...` constants for the verification in progress.
 var specConstsNow map[string]int64
+
+// alphaAssumed: the goal is literally one of the assumptions (for quantified goals: up to the names of
+// the bound variables).
+func alphaAssumed(o *Obl) bool {
+	g := o.Goal
+	for _, p := range o.PC {
+		if p == g {
+			return true
+		}
+		if g.Op == "forall" && p.Op == "forall" && len(p.Bound) == len(g.Bound) {
+			m := map[string]*Term{}
+			ok := true
+			for i, b := range p.Bound {
+				if b.S != g.Bound[i].S {
+					ok = false
+				}
+				m[b.Name] = g.Bound[i]
+			}
+			if ok && subst(p.Args[0], m) == g.Args[0] {
+				return true
+			}
+		}
+	}
+	return false
+}
